@@ -80,6 +80,7 @@ CONSTANTS CompSeq,         \* sequence of component labels, e.g. <<"c1", "c2">> 
           RiVals,          \* values repeatInterval can be set to (subset of {"0", "5"}); {} switches SetRi/DelRi off
           IpVals,          \* values command.interpreter can be set to (subset of {"B"}); {} switches SetIp/DelIp off
           Edits,           \* in-place edits of ReplaceSame (subset of AllEdits); {} switches ReplaceSame and the tracking of `al` off
+          PeekKinds,       \* calls that read the configuration without using the cache (subset of AllPeeks); {} switches Peek off
           AddHows,         \* add_component: "api" = insert_copy=True, "ref" = insert_copy=False (subset of {"api", "ref"})
           Flavours,        \* query flavours explored (subset of AllFlavours)
           Templates,       \* component templates for add_component / update_component (subset of AllTemplates)
@@ -313,6 +314,15 @@ SetPlatformStage(p, s, x) == SetStageVarOf(p, s, x, "api", "SetPlatformStage")  
 InPlaceGlobal(p, x)    == SetGlobalVar(p, x, "ref", "InPlaceGlobal")
 InPlaceStage(p, s, x)  == SetStageVarOf(p, s, x, "ref", "InPlaceStage")
 
+(* Calls that read the configuration of c (or of every component) WITHOUT the cache: get_component_variable_references,   *)
+(* conf.getOptionForNode, conf.variablesForNode, validate(), instance(), replicate().  Like the query flavours that bypass  *)
+(* the cache they must leave the validity of the cache unchanged: nothing changes in the model (what they return is not     *)
+(* modelled); the binding checks that every later cacheable query still equals the from-scratch resolution.                 *)
+AllPeeks == {"varrefs", "getopt", "nodevars", "validate", "instance", "replicate"}
+Peek(c, k) ==
+  /\ UNCHANGED <<D, cache, handed>>
+  /\ last' = Call("Peek", c, U, -1, k, U, FALSE, Done)
+
 (* the caller scribbles over the dictionary it received from the last successful query *)
 MutateReturned ==
   /\ handed # "none"
@@ -343,6 +353,7 @@ Next ==
   \/ \E c \in Comps, t \in Templates, h \in AddHows : AddComp(c, t, h)
   \/ \E c \in Comps, t \in Templates : ReplaceComp(c, t)
   \/ \E c \in Comps, e \in Edits : ReplaceSame(c, e)
+  \/ \E c \in Comps, k \in PeekKinds : Peek(c, k)
   \/ \E c \in Comps : DeleteComp(c)
   \/ MutateReturned
 
@@ -376,6 +387,8 @@ Private == [][PrivateStep]_vars
 
 (* queries do not change the description *)
 QueryPure == [][last'.act = "Query" => D' = D]_vars
+(* calls that bypass the cache change nothing: a non-cacheable query or a Peek leaves D and the cache as they are *)
+BypassPure == [][(last'.act = "Peek" \/ (last'.act = "Query" /\ ~UsesCache(last'.x))) => (D' = D /\ cache' = cache)]_vars
 
 (* vacuity witnesses: expected to be violated *)
 NeverHit      == ~(last.act = "Query" /\ last.hit)
